@@ -583,6 +583,29 @@ class VFlags(VBase):
 
 
 CLASSES["VFlags"] = VFlags
+@dataclass(frozen=True)
+class VTwoSeq(VBase):
+    """Two tuple child fields: an index is relative to the field, not to the node."""
+
+    left: tuple[VBase, ...] = ()
+    right: tuple[VBase, ...] = ()
+    mid: VBase | None = None
+
+
+@dataclass(frozen=True)
+class VIter(VBase):
+    """A node class that is iterable (over its items) without being a collection: it defines
+    __iter__ only, so it is neither falsy nor sized."""
+
+    items: tuple[VBase, ...] = ()
+    v: int = 0
+
+    def __iter__(self):
+        return iter(self.items)
+
+
+CLASSES["VTwoSeq"] = VTwoSeq
+CLASSES["VIter"] = VIter
 _STAMPS = __import__("itertools").count(1)
 
 
